@@ -198,7 +198,8 @@ def exGlue : Glue :=
     view := fun c => { raw := c.raw, key := c.raw }
     envJ := fun _ => .null
     pdOf := fun _ => default
-    render := fun vals => vals.map (fun p => (p.1, "")) }
+    render := fun vals => vals.map (fun p => (p.1, ""))
+    clock := fun t => 1900 + (t : Int) }
 
 def exCredNet : C01.Cred := { id := some "did:nuts:B#1", issuer := "did:nuts:B" }
 def exCredSL : C01.Cred :=
@@ -266,8 +267,8 @@ theorem token_step_only_for_verified_matching (x : Ctx) (cfg2 : C02.Cfg)
     (hchk : cfg2.emptyVpChecked = true) (httl : cfg2.nonceTtl ≠ 0) (httl' : cfg2.tokenTtl ≠ 0)
     (hdid : ∀ u, x.base.didOfURL u ≠ some "")
     (rw : C11.World) (w w' : C02.World) (now : Nat) (r : Req) (resp : C02.TokenResponse)
-    (h : C02.issueS2S cfg2 w now (s2sOf x rw r) = (w', .ok resp)) :
-    ∃ claims, Established x cfg2 rw r claims ∧
+    (h : C02.issueS2S cfg2 w now (s2sOf x rw now r) = (w', .ok resp)) :
+    ∃ claims, Established x cfg2 rw now r claims ∧
       ∀ now' ri, C02.introspect cfg2 w' now' resp.token = .ok (some ri) → ri.additional = claims := by
   obtain ⟨rec, hest, htok, _, hrec, _, _⟩ := issue_established x cfg2 rw w w' now r resp hchk httl hdid h
   refine ⟨rec.claims, hest, ?_⟩
@@ -291,7 +292,7 @@ theorem token_issued_only_for_verified_matching_unrevoked (x : Ctx) (cfg2 : C02.
     (evs : List Ev) (now : Nat) (tok : String) (ri : C02.Introspection)
     (h : C02.introspect cfg2 (runEv x cfg2 ⟨rw0, {}⟩ evs).as now tok = .ok (some ri)) :
     ∃ pre t r post, evs = pre ++ Ev.req t r :: post ∧
-      Established x cfg2 (C11.run x.E11 x.K rw0 (revActs pre)) r ri.additional ∧
+      Established x cfg2 (C11.run x.E11 x.K rw0 (revActs pre)) t r ri.additional ∧
       (∀ p ∈ r.vps, ∀ c ∈ p.1.vcs, ¬ RevokedIn x.g x.E11 x.K rw0 x.node c (revActs pre)) := by
   rw [runEv_as x cfg2 sha evs ⟨rw0, {}⟩] at h
   obtain ⟨pre', t, op, post', rec, heq, hiss, _, _, _, _, _, _, _, _, _, hadd⟩ :=
@@ -299,12 +300,12 @@ theorem token_issued_only_for_verified_matching_unrevoked (x : Ctx) (cfg2 : C02.
   obtain ⟨pre, r, post, hevs, htr, hop⟩ := trace_split x cfg2 evs _ pre' post' t op heq
   subst hop
   obtain ⟨resp, hstep, _, hname, htoks, _, _, _⟩ := hiss
-  have hI : C02.issueS2S cfg2 (C02.after cfg2 sha pre' {}) t (s2sOf x (runEv x cfg2 ⟨rw0, {}⟩ pre).rw r) =
-      ((C02.issueS2S cfg2 (C02.after cfg2 sha pre' {}) t (s2sOf x (runEv x cfg2 ⟨rw0, {}⟩ pre).rw r)).1, .ok resp) := by
+  have hI : C02.issueS2S cfg2 (C02.after cfg2 sha pre' {}) t (s2sOf x (runEv x cfg2 ⟨rw0, {}⟩ pre).rw t r) =
+      ((C02.issueS2S cfg2 (C02.after cfg2 sha pre' {}) t (s2sOf x (runEv x cfg2 ⟨rw0, {}⟩ pre).rw t r)).1, .ok resp) := by
     simp only [C02.step, C02.Out.token.injEq] at hstep
     rw [← hstep]
   obtain ⟨rec', hest, _, _, hrec', _, _⟩ := issue_established x cfg2 _ _ _ t r resp hchk httl hdid hI
-  have htoks' : (C02.issueS2S cfg2 (C02.after cfg2 sha pre' {}) t (s2sOf x (runEv x cfg2 ⟨rw0, {}⟩ pre).rw r)).1.tokens =
+  have htoks' : (C02.issueS2S cfg2 (C02.after cfg2 sha pre' {}) t (s2sOf x (runEv x cfg2 ⟨rw0, {}⟩ pre).rw t r)).1.tokens =
       (C02.after cfg2 sha pre' {}).tokens.put t cfg2.tokenTtl tok rec := by
     simpa [C02.step] using htoks
   rw [htoks', hname] at hrec'
@@ -314,17 +315,17 @@ theorem token_issued_only_for_verified_matching_unrevoked (x : Ctx) (cfg2 : C02.
   rw [hadd]
   refine ⟨pre, t, r, post, hevs, hest, ?_⟩
   intro p hp c hc hrev
-  exact (revoked_credential_never_verifies x.g x.E11 x.K hE rw0 h0 x.node c _ hrev x.cfg1 x.P x.base true none).2 p.1 hc (hest.1 p hp)
+  exact (revoked_credential_never_verifies x.g x.E11 x.K hE rw0 h0 x.node c _ hrev x.cfg1 x.P _ true none).2 p.1 hc (hest.1 p hp)
 
 /-- **introspected_claims_are_resolved_fields** (C02 `claims_cannot_override` ∘ C12 `field_values_faithful`).  For the token of
     an established request (`Established`, as delivered by (3)): every additional claim reported by introspection is the
     rendering of a value C12 resolved, each such value comes — through a constraint field with that id of the input descriptor
     the credential is mapped to — from a credential of the map C12's `resolve` read out of the envelope; and in the marshalled
     RFC 7662 answer no such claim shadows a standard member. -/
-theorem introspected_claims_are_resolved_fields (x : Ctx) (cfg2 : C02.Cfg) (rw : C11.World) (r : Req)
+theorem introspected_claims_are_resolved_fields (x : Ctx) (cfg2 : C02.Cfg) (rw : C11.World) (t : Nat) (r : Req)
     (h12 : x.cfg12 = Facts.C12.cfg) (hres : cfg2.reserved = Facts.C02.reservedClaims)
     (w : C02.World) (now : Nat) (tok : String) (ri : C02.Introspection)
-    (hi : C02.introspect cfg2 w now tok = .ok (some ri)) (hest : Established x cfg2 rw r ri.additional) :
+    (hi : C02.introspect cfg2 w now tok = .ok (some ri)) (hest : Established x cfg2 rw t r ri.additional) :
     (∃ (d : C02.Def) (cm : List (String × C12.Cred)) (vals : C12.Values), C12.resolve x.cfg12 x.decode (x.g.envJ r.pres) [] r.sub = .ok cm ∧ ri.additional = x.g.render vals ∧
         ∀ e ∈ vals, C12.FieldSource x.re (x.g.pdOf d.key) cm e) ∧
     (∀ k ∈ Facts.C02.introspectionFields, C02.objGet (C02.marshal Facts.C02.marshalAssignOrder ri) k = ri.std k) := by
@@ -360,24 +361,24 @@ theorem revocation_after_issue_does_not_resurrect (x : Ctx) (cfg2 : C02.Cfg) (sh
   refine ⟨?_, ?_⟩
   · intro t' r' resp' ⟨p, hp, hc⟩ hok
     have hI : C02.issueS2S cfg2 (runEv x cfg2 ⟨rw0, {}⟩ ((pre ++ Ev.req t r :: mid) ++ post)).as t'
-        (s2sOf x (runEv x cfg2 ⟨rw0, {}⟩ ((pre ++ Ev.req t r :: mid) ++ post)).rw r') =
+        (s2sOf x (runEv x cfg2 ⟨rw0, {}⟩ ((pre ++ Ev.req t r :: mid) ++ post)).rw t' r') =
         ((C02.issueS2S cfg2 (runEv x cfg2 ⟨rw0, {}⟩ ((pre ++ Ev.req t r :: mid) ++ post)).as t'
-          (s2sOf x (runEv x cfg2 ⟨rw0, {}⟩ ((pre ++ Ev.req t r :: mid) ++ post)).rw r')).1, .ok resp') := by
+          (s2sOf x (runEv x cfg2 ⟨rw0, {}⟩ ((pre ++ Ev.req t r :: mid) ++ post)).rw t' r')).1, .ok resp') := by
       simp only [stepEv, Option.some.injEq] at hok
       rw [← hok]
     obtain ⟨_, hest, _⟩ := issue_established x cfg2 _ _ _ t' r' resp' hchk httl hdid hI
     rw [runEv_rw, revActs_append] at hest
-    exact (revoked_credential_never_verifies x.g x.E11 x.K hE rw0 h0 x.node c _ (hrev.extend _) x.cfg1 x.P x.base true none).2
+    exact (revoked_credential_never_verifies x.g x.E11 x.K hE rw0 h0 x.node c _ (hrev.extend _) x.cfg1 x.P _ true none).2
       p.1 hc (hest.1 p hp)
   · -- the issued token: C02's `introspect_faithful` on the trace
-    have hI : C02.issueS2S cfg2 (runEv x cfg2 ⟨rw0, {}⟩ pre).as t (s2sOf x (runEv x cfg2 ⟨rw0, {}⟩ pre).rw r) =
-        ((C02.issueS2S cfg2 (runEv x cfg2 ⟨rw0, {}⟩ pre).as t (s2sOf x (runEv x cfg2 ⟨rw0, {}⟩ pre).rw r)).1, .ok resp) := by
+    have hI : C02.issueS2S cfg2 (runEv x cfg2 ⟨rw0, {}⟩ pre).as t (s2sOf x (runEv x cfg2 ⟨rw0, {}⟩ pre).rw t r) =
+        ((C02.issueS2S cfg2 (runEv x cfg2 ⟨rw0, {}⟩ pre).as t (s2sOf x (runEv x cfg2 ⟨rw0, {}⟩ pre).rw t r)).1, .ok resp) := by
       simp only [stepEv, Option.some.injEq] at hiss
       rw [← hiss]
     obtain ⟨rec, _, htok, hnext, hrec, hia, hex⟩ := issue_established x cfg2 _ _ _ t r resp hchk httl hdid hI
     have hasp : (runEv x cfg2 ⟨rw0, {}⟩ pre).as = C02.after cfg2 sha (trace x cfg2 ⟨rw0, {}⟩ pre) {} := runEv_as x cfg2 sha pre _
     have hIssued : C02.Issued cfg2 sha (C02.after cfg2 sha (trace x cfg2 ⟨rw0, {}⟩ pre) {}) t
-        (.s2s (s2sOf x (runEv x cfg2 ⟨rw0, {}⟩ pre).rw r)) resp.token rec := by
+        (.s2s (s2sOf x (runEv x cfg2 ⟨rw0, {}⟩ pre).rw t r)) resp.token rec := by
       rw [← hasp]
       refine ⟨resp, ?_, rfl, htok, ?_, ?_, hia, hex⟩
       · simp only [C02.step]; rw [hI]
@@ -397,7 +398,7 @@ theorem revocation_after_issue_does_not_resurrect (x : Ctx) (cfg2 : C02.Cfg) (sh
           else .ok none := by
       intro rest now
       have htr : trace x cfg2 ⟨rw0, {}⟩ (pre ++ Ev.req t r :: rest) =
-          trace x cfg2 ⟨rw0, {}⟩ pre ++ (t, .s2s (s2sOf x (runEv x cfg2 ⟨rw0, {}⟩ pre).rw r)) ::
+          trace x cfg2 ⟨rw0, {}⟩ pre ++ (t, .s2s (s2sOf x (runEv x cfg2 ⟨rw0, {}⟩ pre).rw t r)) ::
             trace x cfg2 (stepEv x cfg2 (runEv x cfg2 ⟨rw0, {}⟩ pre) (.req t r)).1 rest := by
         rw [trace_append]; simp [trace, opOf]
       rw [runEv_as x cfg2 sha _ ⟨rw0, {}⟩, htr]
@@ -420,10 +421,10 @@ def exK1 : C11.KeyEnv := ⟨fun vm _ => if vm == "did:x:i#k" then some "K1" else
 /-- the issuer `did:x:i` revokes its credential `did:x:i#1` (C11 `buildRevocation`) -/
 def exRev1 : C11.Revocation := C11.buildRevocation "did:x:i#1" "did:x:i#k" "sig" 150
 
-/-- C01's example verifier (toy crypto, one trusted issuer) at clock 2000, C11's example world and keys, C12 as the source
+/-- C01's example verifier (toy crypto, one trusted issuer; its clock shows 1900 + t at C02-time t), C11's example world and keys, C12 as the source
     has it today -/
 def exCtx : Ctx :=
-  { g := exGlue, cfg1 := C01.Props.exCfg, P := C01.Props.exP, base := { C01.Props.exE with now := 2000 },
+  { g := exGlue, cfg1 := C01.Props.exCfg, P := C01.Props.exP, base := C01.Props.exE,
     E11 := C11.Props.exEnv, K := exK1, node := false,
     cfg12 := Facts.C12.cfg, re := C12.Props.reNone, decode := fun _ _ => none }
 
@@ -446,8 +447,8 @@ def exReq (nonce : String) : Req := { wire := exWire, vps := [(C01.Props.exVP, e
 
 def exS0 : St := ⟨C11.Props.exWorld, {}⟩
 
-example : accepts exCtx C11.Props.exWorld C01.Props.exVP = true := by decide
-example : (fieldsOf exCtx C11.Props.exWorld [C01.Props.exVP] [] 0).isOk = true := by decide
+example : accepts exCtx C11.Props.exWorld 102 C01.Props.exVP = true := by decide
+example : (fieldsOf exCtx C11.Props.exWorld 102 [C01.Props.exVP] [] 0).isOk = true := by decide
 example : ((stepEv exCtx exCfg2 exS0 (.req 102 (exReq "n1"))).2.map (·.isOk)) = some true := by decide
 
 /-- T3 non-vacuity: the token of the request is reported active -/
